@@ -71,11 +71,4 @@ theorem table_nonvacuous :
 theorem writes_serialised :
     Generated.transportWriteSites = ["(*BaseClient).write"] ∧ Generated.writeHoldsMuWrite = true := by decide
 
-/-- every packet is handed to the transport by exactly one `write` call: the functions that call
-    `write`, with their number of call sites (serve: PUBACK, PUBREC, PUBCOMP; publishImpl: PUBLISH
-    and, for QoS 2, PUBREL). A packet split over two `write` calls would release muWrite in between. -/
-theorem one_write_per_packet :
-    Generated.writeCallers = [("(*BaseClient).Connect", 1), ("(*BaseClient).Disconnect", 1), ("(*BaseClient).Ping", 1),
-      ("(*BaseClient).serve", 3), ("publishImpl", 2), ("subscribeImpl", 1), ("unsubscribeImpl", 1)] := by decide
-
 end Mqtt.Lockset
